@@ -40,7 +40,25 @@ func runHistory(out *hx.Out, h history, origin string) {
 		for _, f := range fs {
 			out.Count("finding:" + f)
 		}
+		if res.stack {
+			out.Count("stack-model:histories evaluated")
+		} else {
+			out.Count("stack-model:histories not evaluated")
+		}
 		for _, s := range res.steps {
+			if res.stack {
+				if ok, why := stackModelCovers(s.Op); ok {
+					out.Count("stack-model:operations compared (answer, status, backend trace)")
+					if !namesOK(s.Op) {
+						out.Count("stack-model:operations compared that mention an ill-formed name")
+					}
+				} else {
+					out.Count("stack-model:operations excluded: " + why)
+				}
+			}
+			if s.Stat != 0 {
+				out.Count(fmt.Sprintf("via-status:%d", s.Stat))
+			}
 			if usesSlack(s) {
 				out.Count("identification-b-used (unknown repository vs empty answer):" + s.Op.Kind)
 			}
@@ -227,7 +245,8 @@ func defaultStack() Stack { return Stack{Hops: 1} }
 func main() {
 	cfg := hx.ParseFlags()
 	out := hx.NewOut(cfg, "Obs.C03")
-	out.ShardMax = 25
+	out.ShardMax = 14
+	thoroughTier = cfg.Thorough()
 	type input struct {
 		Input history `json:"input"`
 	}
